@@ -43,8 +43,7 @@ def _alarm(signum, frame):
     raise Hang()
 
 
-WATCHDOG_CPU_S = 3.0      # a real run takes well under a millisecond
-WATCHDOG_WALL_S = 40.0
+WATCHDOG_S = 20.0         # wall clock; a real run takes well under a millisecond
 HANGS: Dict[str, int] = {}   # per process: operators whose runs hung (further runs of that operator are skipped)
 
 
@@ -395,36 +394,45 @@ def run_scenario(scn: Dict[str, Any], cfg: Dict[str, Any]) -> Dict[str, Any]:
     operator = build_operator(scn, s, clk, V, cfg, made)
     ys = xs.pipe(operator)
     rec: List[Tuple[float, str, Any]] = []
+    rec2: List[Tuple[float, str, Any]] = []
     holder: Dict[str, Any] = {}
 
-    def subscribe(_s=None, _st=None):
-        kw = {"scheduler": s} if cfg.get("subsched", True) else {}
-        holder["d"] = ys.subscribe(on_next=lambda v: rec.append((clk.secs(s), "N", v)),
-                                   on_error=lambda e: rec.append((clk.secs(s), "E", e)),
-                                   on_completed=lambda: rec.append((clk.secs(s), "C", None)), **kw)
-    s.schedule_absolute(clk.A(SUB), subscribe)
+    off2 = S * cfg.get("off2", 0)
+
+    def subscriber(key, r, shift):
+        def subscribe(_s=None, _st=None):
+            kw = {"scheduler": s} if cfg.get("subsched", True) else {}
+            holder[key] = ys.subscribe(on_next=lambda v: r.append((clk.secs(s) - shift, "N", v)),
+                                       on_error=lambda e: r.append((clk.secs(s) - shift, "E", e)),
+                                       on_completed=lambda: r.append((clk.secs(s) - shift, "C", None)), **kw)
+        return subscribe
+    s.schedule_absolute(clk.A(SUB), subscriber("d", rec, 0))
+    if cfg.get("twice"):
+        # a second, independent subscriber of the same pipeline, at the same instant or off2 ticks later (cold source,
+        # relative parameters: it must see the same scenario, shifted). Operator state must be per subscription.
+        s.schedule_absolute(clk.A(SUB + off2), subscriber("d2", rec2, off2))
     dsp = scn["dsp"]
     if dsp != NEVER:
         s.schedule_absolute(clk.A(SUB + S * dsp + S / 2), lambda *_: holder["d"].dispose())
+        if cfg.get("twice"):
+            s.schedule_absolute(clk.A(SUB + off2 + S * dsp + S / 2), lambda *_: holder["d2"].dispose())
     escaped = None
     import signal
-    old_v = signal.signal(signal.SIGVTALRM, _alarm)
     old_r = signal.signal(signal.SIGALRM, _alarm)
-    signal.setitimer(signal.ITIMER_VIRTUAL, WATCHDOG_CPU_S)
-    signal.setitimer(signal.ITIMER_REAL, WATCHDOG_WALL_S)
+    signal.setitimer(signal.ITIMER_REAL, WATCHDOG_S * cfg.get("patience", 1))
     try:
-        s.advance_to(clk.A(SUB + S * cfg["hz"]))
+        s.advance_to(clk.A(SUB + S * cfg["hz"] + off2))
     except Hang:
         escaped = Hang("no progress: the virtual-time run did not finish within the watchdog budget")
         HANGS[scn["op"]] = HANGS.get(scn["op"], 0) + 1
     except Exception as e:            # an exception that escaped into the scheduler
         escaped = e
     finally:
-        signal.setitimer(signal.ITIMER_VIRTUAL, 0)
         signal.setitimer(signal.ITIMER_REAL, 0)
-        signal.signal(signal.SIGVTALRM, old_v)
         signal.signal(signal.SIGALRM, old_r)
-    return {"rec": rec, "subs": get_subs(), "clk": clk, "V": V, "escaped": escaped, "made": made}
+    lim = SUB + S * cfg["hz"]            # each subscriber is observed through its own horizon
+    return {"rec": [x for x in rec if x[0] <= lim], "rec2": [x for x in rec2 if x[0] <= lim] if cfg.get("twice") else None,
+            "subs": get_subs(), "clk": clk, "V": V, "escaped": escaped, "made": made, "off2": off2}
 
 
 # ---- comparing with an allowed observation (asserted projection) -----------------------------------------------------------
@@ -490,10 +498,11 @@ def compare(scn, exp, got, hz) -> Optional[str]:
             return f"error:{type(v).__name__}"
     if op in HOT_OPS and exp["subAt"] >= 0:
         subs = got["subs"]
-        if len(subs) != 1:
+        if len(subs) != (2 if got.get("rec2") is not None or got.get("second") else 1):
             return f"subscriptions:{len(subs)}"
-        if clk.tick(subs[0][0]) != exp["subAt"]:
-            return f"subscribed_at:{clk.tick(subs[0][0])}!={exp['subAt']}"
+        for nth, sub in enumerate(subs):
+            if clk.tick(sub[0] - (got["off2"] if nth else 0)) != exp["subAt"]:
+                return f"subscribed_at:{clk.tick(sub[0])}!={exp['subAt']}"
     if op in HOT_OPS and exp["subAt"] < 0 and got["subs"]:
         return "subscribed although the subscription delay never elapsed"
     return None
@@ -502,7 +511,7 @@ def compare(scn, exp, got, hz) -> Optional[str]:
 def drift(scn, exp, got) -> Optional[str]:
     """release instant of the source subscription (C02's business, recorded as drift only)"""
     clk, subs = got["clk"], got["subs"]
-    if exp["subAt"] < 0:
+    if exp["subAt"] < 0 or got.get("rec2") is not None or got.get("second"):
         return None
     if len(subs) != 1:
         return f"{scn['op']}: {len(subs)} source subscriptions"
@@ -549,12 +558,29 @@ def witness(scn, allowed, got) -> Dict[str, Any]:
 def judge(scn, allowed, cfg):
     """None, or a failure record"""
     got = run_scenario(scn, cfg)
-    reasons = []
+    if isinstance(got["escaped"], Hang):
+        # a stall of the (shared, loaded) machine must not be mistaken for a hang: run it again with more patience
+        HANGS[scn["op"]] -= 1
+        got = run_scenario(scn, dict(cfg, patience=3))
+    if got["rec2"] is not None:
+        # judge the second subscriber first; the first one below
+        got2 = dict(got, rec=got["rec2"], rec2=None, second=True)
+        if not any(compare(scn, exp, got2, cfg["hz"]) is None for exp in allowed):
+            r = compare(scn, allowed[0], got2, cfg["hz"])
+            rec = {"engine": "optime", "op": scn["op"], "scn": scn, "cfg": cfg, "expected": allowed, "observed": describe(got2),
+                   "reason": "second_subscriber:" + r, "reason_kind": "second_subscriber", "clock": cfg.get("clock", "test"),
+                   "mode": cfg.get("mode")}
+            return rec, None
+    reasons, drifts, matched = [], [], False
     for exp in allowed:
         r = compare(scn, exp, got, cfg["hz"])
         if r is None:
-            return None, drift(scn, exp, got)
-        reasons.append(r)
+            matched = True
+            drifts.append(drift(scn, exp, got))
+        else:
+            reasons.append(r)
+    if matched:
+        return None, (None if None in drifts else drifts[0])
     rec = {"engine": "optime", "op": scn["op"], "scn": scn, "cfg": cfg, "expected": allowed, "observed": describe(got),
            "reason": reasons[0], "reason_kind": reasons[0].split(":")[0], "clock": cfg.get("clock", "test"),
            "mode": cfg.get("mode")}
@@ -590,6 +616,15 @@ def variants(scn, hz, tier, seed=0, clocks=("test", "hist")) -> List[Dict[str, A
                         "schedarg": g % 4 == 2, "subsched": True, "profile": ("falsy", "plain")[(g // 2) % 2], "salt": g % 6,
                         "auxmode": ("cold", "hot", "cold_chain", "hot_chain")[g % 4], "auxfirst": (g // 4) % 2 == 0,
                         "specmode": ("cold", "cold_chain")[(g // 3) % 2], "fbmode": "cold", "alias": False})
+    # two subscribers of the same pipeline
+    if tier == "thorough" or h % 4 == 0:
+        g = h // 4
+        cold = [m_ for m_ in modes if m_.startswith("cold")]
+        shifted = bool(cold) and op not in ABS_OPS and op != "timestamp" and g % 3 != 0       # the later subscriber needs a cold source and relative times
+        out.append({"hz": hz, "mode": cold[g % len(cold)] if shifted else modes[g % len(modes)], "clock": ("test", "hist")[g % 2],
+                    "S": (1, 7)[g % 2], "argform": "num", "schedarg": False, "subsched": True, "profile": "plain", "salt": g % 6,
+                    "twice": True, "off2": (1, 2, 3)[g % 3] if shifted else 0, "auxmode": "cold" if shifted else ("cold", "hot")[g % 2],
+                    "specmode": "cold", "fbmode": "cold"})
     # scheduler given to the operator only (subscribe() without one), where the operator takes a scheduler
     if op not in NOSCHED_OPS and op not in FB_OPS and h % 3 == 0:
         out.append({"hz": hz, "mode": modes[(h // 3) % len(modes)], "clock": "test", "S": 1, "argform": "num", "schedarg": True,
@@ -614,6 +649,12 @@ def _job(args):
 
 # ---- shared driver ----------------------------------------------------------------------------------------------------------------
 
+def need_hz(g, c) -> int:
+    """smallest horizon satisfying ASSUME HorizonOK of OpsTime.tla for operator group g under constants c"""
+    ms = max(set(c["Ds"]) | set(c["SpecTs"]) | {0})
+    return max((c["MaxTS"] if o in c["Small"] else c["MaxT"]) + ms + (ms if o == "delay_with_mapper_sub" else 0) for o in g)
+
+
 def _tlc_one(args):
     from harness import tlc
     g, c, timeout, sim = args
@@ -635,6 +676,7 @@ def run_groups(ck, specs, base, tier, clocks=("test", "hist"), label="export", t
     for g, over in specs:
         c = dict(base)
         c.update(over)
+        c["Hz"] = max(c["Hz"], need_hz(g, c))
         jobs.append((g, c, timeout, None))
     all_groups = []
     with ThreadPoolExecutor(par_tlc) as ex:
@@ -643,6 +685,21 @@ def run_groups(ck, specs, base, tier, clocks=("test", "hist"), label="export", t
         ck.add_tlc(res, f"{label} {','.join(g)} " + " ".join(f"{k}={sorted(v) if isinstance(v, (set, frozenset)) else v}"
                                                               for k, v in sorted(c.items()) if k != "Ops"))
         gs = core.group_allowed(res.lines)
+        # vacuity guard: every operator of the group must have produced scenarios, some with output, and the model
+        # must have met at least one same-instant tie somewhere in the group
+        per = {o: [0, 0, 0] for o in g}
+        for scn, allowed in gs:
+            p_ = per[scn["op"]]
+            p_[0] += 1
+            p_[1] += 1 if any(a["out"] for a in allowed) else 0
+            p_[2] += 1 if len(allowed) > 1 else 0
+        for o, (n_s, n_out, n_tie) in per.items():
+            if n_s == 0 or n_out == 0:
+                raise RuntimeError(f"vacuous export for {o}: {n_s} scenarios, {n_out} with output")
+            prev = ck.extra.setdefault("per_operator", {}).setdefault(o, {"scenarios": 0, "with_output": 0, "with_ties": 0})
+            prev["scenarios"] += n_s
+            prev["with_output"] += n_out
+            prev["with_ties"] += n_tie
         t0 = time.time()
         replay_groups(ck, gs, c["Hz"], tier, clocks, procs)
         ck.count("replay_wall_s", round(time.time() - t0, 1))
